@@ -85,8 +85,7 @@ Proof.
 Qed.
 
 (** what an accepted xtext decodes to *)
-Definition xt_value (d : bytes) : Prop :=
-  d = [] \/ d = [60; 62]%N \/ mailbox pton4 pton6 lweak 3 d \/ mailbox pton4 pton6 lweak 4 d.
+Definition xt_value (d : bytes) : Prop := xtext_value pton4 pton6 d.
 
 Theorem xtextlen_spec s rest : ~ In NUL s ->
   exists n, xtextlen pton4 pton6 (s ++ NUL :: rest) = Ok n /\
@@ -99,18 +98,18 @@ Proof.
   rewrite Hr. cbn [bind]. destruct r as [[acc result]|]; [|exists (-1)%Z; split; [reflexivity|now left]].
   destruct Hpost as (x & tail & d & -> & Htail & Hd & Hdn & -> & -> & Hl). cbn [app] in *. rewrite Z.add_0_l.
   destruct (Nat.eqb_spec (length d) 0) as [E0|Hne].
-  { eexists. split; [reflexivity|]. right. exists x, tail, d. destruct d; [|discriminate]. unfold xt_value. auto 10. }
+  { eexists. split; [reflexivity|]. right. exists x, tail, d. destruct d; [|discriminate]. unfold xt_value, xtext_value. auto 10. }
   xt_consts. destruct (Nat.leb_spec 321 (length d)) as [Hbad|_]; [ulia|].
   change (d ++ [NUL]) with (d ++ NUL :: []).
   rewrite strcmp_run; [|assumption|vm_compute; intuition discriminate]. cbn [bind].
   destruct (bytes_eqb d [60; 62]%N) eqn:Enp.
-  { apply bytes_eqb_eq in Enp. eexists. split; [reflexivity|]. right. exists x, tail, d. unfold xt_value. auto 10. }
+  { apply bytes_eqb_eq in Enp. eexists. split; [reflexivity|]. right. exists x, tail, d. unfold xt_value, xtext_value. auto 10. }
   unfold addrspec_valid. unfold AV_MIN.
   destruct (parseaddr_spec pton4 pton6 d [] Hdn) as (rc & Hrc & Hp). rewrite Hrc. cbn [bind].
   destruct (Nat.leb_spec 3 rc) as [H3|_]; [|exists (-1)%Z; split; [reflexivity|now left]].
   eexists. split; [reflexivity|]. right. exists x, tail, d.
   repeat (split; [assumption || reflexivity|]).
-  unfold xt_value. destruct rc as [|[|[|[|[|]]]]]; try ulia; cbn in Hp; auto; destruct Hp.
+  unfold xt_value, xtext_value. destruct rc as [|[|[|[|[|]]]]]; try ulia; cbn in Hp; auto; destruct Hp.
 Qed.
 
 End Oracle.
